@@ -108,3 +108,15 @@ Definition judge_csr (c : csr_case) : Z :=
   | SGcxs g => if gcxs_eqb (gcxs_prune2 (dot_csr_csr a b)) g then 0 else 1
   | _ => 2
   end.
+
+(* ------------------------------------------------------------------ (d') csc @ ndarray with a GCXS result *)
+
+(* (a with compressed axis 1, the columns of the dense b, what tensordot(a, b, return_type=GCXS) returned) *)
+Definition cscnd_case := (gcxs Z * list (list Z) * sarr)%type.
+
+Definition judge_cscnd (c : cscnd_case) : Z :=
+  let '(a, bcols, r) := c in
+  match r with
+  | SGcxs g => if gcxs_eqb (gcxs_prune2 (dot_csc_ndarray a bcols)) g then 0 else 1
+  | _ => 2
+  end.
